@@ -41,6 +41,12 @@ func BuildMapCodec(p CodecBuilder, registry CodecRegistry, typ reflect.Type, tag
 		return nil, fmt.Errorf("failed to find codec for map value %s. %w", typ.Elem().Name(), err)
 	}
 
+	if isProtoSlice(valueCodec) {
+		// The protobuf repeated form writes one value field per element,
+		// but a map entry holds a single value field
+		return nil, fmt.Errorf("maps of slices of structs or strings are not supported in the protobuf repeated form")
+	}
+
 	c := MapCodec{
 		keyCodec:   keyCodec,
 		valueCodec: valueCodec,
@@ -69,6 +75,21 @@ func BuildMapCodec(p CodecBuilder, registry CodecRegistry, typ reflect.Type, tag
 	}
 
 	return &c, nil
+}
+
+// isProtoSlice reports whether c, or what c points to, writes a slice in the
+// protobuf repeated form
+func isProtoSlice(c Codec) bool {
+	for {
+		switch cc := c.(type) {
+		case ProtoSliceWrapper:
+			return true
+		case PointerWrapper:
+			c = cc.Underlying
+		default:
+			return false
+		}
+	}
 }
 
 func (c *MapCodec) newKey() interface{} {
